@@ -95,6 +95,7 @@ class StreamAutomaton:
         self.pending_tc = None
         self.n = 0
         self.starting_pending = False
+        self.cur = None           # the time subscribers were last told: by START (the clock the run starts from) or TIME_CHANGED
 
     def feed(self, rec):
         """rec = ('n', name, ts) | ('h', tag, time, prio); returns None or a violation string"""
@@ -107,6 +108,8 @@ class StreamAutomaton:
             if self.pending_tc is not None and rec[2] != self.pending_tc:
                 return "TIME_CHANGED-differs-from-the-time-of-the-event-about-to-run"
             self.pending_tc = None
+            if self.cur is not None and rec[2] != self.cur:
+                return "event-ran-at-a-time-the-subscribers-were-not-told"
             return None
         if rec[0] != "n":
             return None
@@ -128,6 +131,7 @@ class StreamAutomaton:
                 return "START-twice-without-STOP"
             self.running = True
             self.starting_pending = False
+            self.cur = ts
         elif name == "STOP_EVENT":
             if not self.running:
                 return "STOP-without-START"
@@ -144,6 +148,7 @@ class StreamAutomaton:
                 return "TIME_CHANGED-decreasing"
             self.last_tc = ts
             self.pending_tc = ts
+            self.cur = ts
         elif name == "WARMUP_EVENT":
             self.warmups += 1
             if self.warmups > 1:
@@ -155,6 +160,8 @@ class StreamAutomaton:
             if self.pending_tc is not None and ts != self.pending_tc:
                 return "TIME_CHANGED-differs-from-the-time-of-the-event-about-to-run"
             self.pending_tc = None
+            if self.cur is not None and ts != self.cur:
+                return "event-ran-at-a-time-the-subscribers-were-not-told"
         elif name == "END_REPLICATION_EVENT":
             if self.running:
                 return "END_REPLICATION-before-STOP"
